@@ -486,5 +486,29 @@ def l5_l6(ck, F, tier):
         and not any("ebn0_db" in repr(g_) for g_, _ in carried[0][3])
     ck.inst("L6", "last-report-kept", keep_ok, wb.span,
             "every statistics report replaces the remembered statistics (%d store(s) to %s inside the receive loop, each of Some(report), not conditioned on the Eb/N0)" % (len(carried), sorted(names_c)))
+    # a line of the result file is the *remembered* report (the last one of the finished Eb/N0), not the incoming one: at an Eb/N0 change
+    # the incoming report is the first of the next point
+    def _atoms(v, out):
+        if isinstance(v, Poly):
+            for mono in v.t:
+                for a_, _ in mono:
+                    out.append(a_)
+                    if a_[0] == "f":
+                        for k_ in a_[2:]:
+                            _atoms(k_, out)
+        elif isinstance(v, (tuple, list)):
+            for x_ in v:
+                _atoms(x_, out)
+    bad_src = []
+    for e in chg + [x for x in fin if x not in chg]:
+        at_ = []
+        _atoms(e.args[0], at_)
+        from_carried = any(a_[0] == "v" and a_[1].split("@")[0].split("#")[0] in names_c and "@loop" in a_[1] for a_ in at_)
+        from_incoming = any(a_[0] == "f" and str(a_[1]).endswith("::recv") for a_ in at_)
+        if not from_carried or from_incoming:
+            bad_src.append("%s formats %s" % (e.site, repr(e.args[0])[:80]))
+    ck.inst("L6", "file-lines-from-remembered-report", len(chg) + len(fin) >= 2 and not bad_src, wb.span,
+            "the result-file lines (at an Eb/N0 change and at Finished: %d sites) are formatted from the remembered last report%s" % (
+                len(chg) + len([x for x in fin if x not in chg]), (" ; but " + "; ".join(bad_src[:2])) if bad_src else ""))
     ck.inst("L6", "one-line-per-ebn0", len(chg) >= 1 and len(fps) >= 3, wb.span,
             "result-file lines are written when the Eb/N0 of the incoming report differs from the previous one and at Finished (%d format_progress sites, %d under an Eb/N0-changed guard)" % (len(fps), len(chg)))
